@@ -22,8 +22,10 @@ def BInv (c : BCtx) (s : BState) : Prop :=
 
 theorem binv_init (c : BCtx) : BInv c (BState.init c) := rfl
 
-theorem procTx_inv (c : BCtx) (s : BState) (t : Tx) (h : BInv c s) : BInv c (procTx c s t) := by
+theorem procTx_inv (c : BCtx) (s : BState) (x : Tx × Bool) (h : BInv c s) : BInv c (procTx c s x) := by
+  obtain ⟨t, sk⟩ := x
   unfold procTx
+  simp only
   split
   · exact h
   · split
@@ -49,18 +51,116 @@ theorem procTx_inv (c : BCtx) (s : BState) (t : Tx) (h : BInv c s) : BInv c (pro
         have e3 : runTx (c.exec (s.block ++ [t])) t s.diff = .ok ls := hrun
         simp only [e1, e2, e3]
 
-theorem foldl_inv (c : BCtx) : ∀ (l : List Tx) (s : BState), BInv c s → BInv c (l.foldl (procTx c) s)
+theorem foldl_inv (c : BCtx) : ∀ (l : List (Tx × Bool)) (s : BState), BInv c s → BInv c (l.foldl (procTx c) s)
   | [], _, h => h
   | t :: l, s, h => foldl_inv c l _ (procTx_inv c s t h)
 
-theorem buildLoop_inv (c : BCtx) (sched : List Tx → List Tx) :
-    ∀ (bs : List (List MTx)) (s : BState), BInv c s → BInv c (buildLoop c sched s bs)
+theorem buildLoop_inv (c : BCtx) (sched : List Tx → List (Tx × Bool)) :
+    ∀ (bs : List (List Tx)) (s : BState), BInv c s → BInv c (buildLoop c sched s bs)
   | [], _, h => h
   | b :: bs, s, h => by
     unfold buildLoop
     split
     · exact h
     · exact buildLoop_inv c sched bs _ (foldl_inv c _ _ h)
+
+/-! ## no duplicates -/
+
+/-- a builder task either appends its tx to the block or leaves diff/consumption/results alone -/
+theorem procTx_cases (c : BCtx) (s : BState) (x : Tx × Bool) :
+    ((procTx c s x).block = s.block ∧ (procTx c s x).diff = s.diff ∧
+      (procTx c s x).consumed = s.consumed ∧ (procTx c s x).results = s.results) ∨
+    (procTx c s x).block = s.block ++ [x.1] := by
+  obtain ⟨t, sk⟩ := x
+  unfold procTx
+  simp only
+  split
+  · exact Or.inl ⟨rfl, rfl, rfl, rfl⟩
+  · split
+    · exact Or.inl ⟨rfl, rfl, rfl, rfl⟩
+    · exact Or.inl ⟨rfl, rfl, rfl, rfl⟩
+    · split
+      · split <;> exact Or.inl ⟨rfl, rfl, rfl, rfl⟩
+      · exact Or.inr rfl
+
+theorem foldl_sublist (c : BCtx) : ∀ (l : List (Tx × Bool)) (s : BState),
+    ∃ l', (l.foldl (procTx c) s).block = s.block ++ l' ∧ l'.Sublist (l.map (·.1))
+  | [], s => ⟨[], by simp, List.Sublist.refl _⟩
+  | x :: l, s => by
+    obtain ⟨l', h1, h2⟩ := foldl_sublist c l (procTx c s x)
+    rcases procTx_cases c s x with ⟨hb, _⟩ | hb
+    · exact ⟨l', by rw [List.foldl_cons, h1, hb], by
+        rw [List.map_cons]; exact List.Sublist.cons _ h2⟩
+    · refine ⟨x.1 :: l', by rw [List.foldl_cons, h1, hb]; simp, ?_⟩
+      rw [List.map_cons]; exact List.Sublist.cons₂ _ h2
+
+/-- every closure the executor ran, over all batches, in execution order -/
+def allSched (c : BCtx) (sched : List Tx → List (Tx × Bool)) (bs : List (List Tx)) : List Tx :=
+  bs.flatMap (fun b => (sched (admitBatch c 0 b).1).map (·.1))
+
+theorem buildLoop_sublist (c : BCtx) (sched : List Tx → List (Tx × Bool)) :
+    ∀ (bs : List (List Tx)) (s : BState),
+      ∃ l', (buildLoop c sched s bs).block = s.block ++ l' ∧ l'.Sublist (allSched c sched bs)
+  | [], s => ⟨[], by simp [buildLoop], List.Sublist.refl _⟩
+  | b :: bs, s => by
+    unfold buildLoop
+    split
+    · exact ⟨[], by simp, List.nil_sublist _⟩
+    · simp only
+      obtain ⟨l1, h1, h2⟩ := foldl_sublist c (sched (admitBatch c 0 b).1)
+        { s with restorable := s.restorable ++ (admitBatch c 0 b).2 }
+      obtain ⟨l2, h3, h4⟩ := buildLoop_sublist c sched bs
+        ((sched (admitBatch c 0 b).1).foldl (procTx c) { s with restorable := s.restorable ++ (admitBatch c 0 b).2 })
+      refine ⟨l1 ++ l2, by rw [h3, h1]; simp, ?_⟩
+      unfold allSched
+      rw [List.flatMap_cons]
+      exact List.Sublist.append h2 h4
+
+theorem admit_not_seen (c : BCtx) : ∀ (b : List Tx) (n : Nat) (t : Tx),
+    t ∈ (admitBatch c n b).1 → c.seen t.id = false
+  | [], _, _, h => by simp [admitBatch] at h
+  | m :: rest, n, t, h => by
+    unfold admitBatch at h
+    simp only at h
+    split at h
+    · simp at h
+    · split at h
+      · exact admit_not_seen c rest _ t h
+      · rename_i hs
+        rcases List.mem_cons.mp h with rfl | h
+        · simpa using hs
+        · exact admit_not_seen c rest _ t h
+
+/-- what the theorem imports about the executor and the mempool: the executor only runs closures
+it was handed (C08), and no tx id is run twice in one build (mempool streams each id once, C23;
+executor runs each task once, C08) -/
+structure SchedOK (c : BCtx) (sched : List Tx → List (Tx × Bool)) (bs : List (List Tx)) : Prop where
+  mem : ∀ l x, x ∈ sched l → x.1 ∈ l
+  nodup : ((allSched c sched bs).map (·.id)).Nodup
+
+theorem block_no_duplicates (c : BCtx) (sched : List Tx → List (Tx × Bool)) (bs : List (List Tx))
+    (ok : SchedOK c sched bs) :
+    (((buildLoop c sched (BState.init c) bs).block).map (·.id)).Nodup ∧
+      ∀ t, t ∈ (buildLoop c sched (BState.init c) bs).block → c.seen t.id = false := by
+  obtain ⟨l', h1, h2⟩ := buildLoop_sublist c sched bs (BState.init c)
+  have hb : (buildLoop c sched (BState.init c) bs).block = l' := by rw [h1]; rfl
+  rw [hb]
+  refine ⟨List.Nodup.sublist (List.Sublist.map _ h2) ok.nodup, ?_⟩
+  intro t ht
+  have hm : t ∈ allSched c sched bs := h2.subset ht
+  unfold allSched at hm
+  obtain ⟨b, _, hb2⟩ := List.mem_flatMap.mp hm
+  obtain ⟨x, hx, rfl⟩ := List.mem_map.mp hb2
+  exact admit_not_seen c b 0 x.1 (ok.mem _ x hx)
+
+theorem replayFree_of (c : BCtx) (txs : List Tx) (h1 : (txs.map (·.id)).Nodup)
+    (h2 : ∀ t, t ∈ txs → c.seen t.id = false) : replayFree c txs = true := by
+  unfold replayFree
+  simp only [Bool.and_eq_true, Bool.not_eq_true', decide_eq_true_eq]
+  refine ⟨?_, h1⟩
+  rw [List.any_eq_false]
+  intro t ht
+  simp [h2 t ht]
 
 /-! ## metadata -/
 
